@@ -31,13 +31,9 @@ def biased(rng, bits, hi=None):
 
 
 def pattern(seed, n):
-    seed &= 0xFFFFFFFF
-    out = bytearray(n)
-    x = (seed * 2654435761 + 12345) & 0xFFFFFFFF
-    for i in range(n):
-        x = (x * 1103515245 + 12345) & 0xFFFFFFFF
-        out[i] = (x >> 16) & 0xFF
-    return out
+    """n deterministic pseudo-random bytes for a seed (no PRNG state involved)"""
+    import hashlib
+    return bytearray(hashlib.shake_128(b"verif-payload:%d" % (seed & 0xFFFFFFFFFFFFFFFF)).digest(n)) if n else bytearray()
 
 
 def real_args(v):
